@@ -8,6 +8,7 @@ import (
 
 	remoteexecution "github.com/bazelbuild/remote-apis/build/bazel/remote/execution/v2"
 	"github.com/buildbarn/bb-remote-execution/pkg/filesystem/virtual"
+	"github.com/buildbarn/bb-remote-execution/pkg/proto/outputpathpersistency"
 	"github.com/buildbarn/bb-storage/pkg/blobstore"
 	"github.com/buildbarn/bb-storage/pkg/blobstore/buffer"
 	"github.com/buildbarn/bb-storage/pkg/digest"
@@ -712,7 +713,7 @@ func (x *Exec) do(op Op) (want, got, note string) {
 		if x.status(want, got) && got == OK {
 			x.observe(d, &a)
 		}
-	case "LeafOpenSelf", "LeafGetAttributes", "LeafSetAttributes", "LeafIO", "LeafUpload", "LeafOpenReadFrozen":
+	case "LeafOpenSelf", "LeafGetAttributes", "LeafSetAttributes", "LeafIO", "LeafUpload", "LeafOpenReadFrozen", "LeafPersistency":
 		want, got = x.leafOp(op)
 	default:
 		panic("vfsh: unknown operation " + op.K)
@@ -1049,6 +1050,14 @@ func (x *Exec) leafOp(op Op) (want, got string) {
 			})
 		})
 		x.call("VirtualClose", func() string { leaf.VirtualClose(share); return OK })
+	case "LeafPersistency":
+		p := &virtual.ApplyAppendOutputPathPersistencyDirectoryNode{Directory: &outputpathpersistency.Directory{}, Name: comp("n")}
+		got = x.call("VirtualApply(ApplyAppendOutputPathPersistencyDirectoryNode)", func() string {
+			if !leaf.VirtualApply(p) {
+				return "unhandled"
+			}
+			return OK
+		})
 	case "LeafUpload":
 		p := &virtual.ApplyUploadFile{Context: ctx, ContentAddressableStorage: discardingCAS{}, DigestFunction: x.digestFn, WritableFileUploadDelay: closedChan}
 		failIO(func() {
